@@ -70,4 +70,32 @@ example : listAll [.key ['a'], .dir ['b', '/'], .key ['c']] 2 4 0 = [.key ['a'],
 example : entries ["p/a".toList, "p/d/x".toList, "p/d/y".toList, "q".toList] "p/".toList true =
     [.key "p/a".toList, .dir "p/d/".toList] := by decide
 
+/-! ### a delimiter listing is the directory view of the key set -/
+
+/-- **files of a directory**: a listing of `pfx` with the delimiter `/` enumerates as keys exactly the
+    stored keys below `pfx` that have no further `/` — the files directly in that directory -/
+theorem C15_listing_files (keys : List Str) (pfx k : Str) :
+    Entry.key k ∈ entries keys pfx true ↔
+      k ∈ keys ∧ pfx.isPrefixOf k = true ∧ commonPrefix pfx.length k = none := by
+  rw [entries_delim, group_mem_key]
+  simp only [List.not_mem_nil, false_or, List.mem_filter]
+  constructor
+  · rintro ⟨⟨a, b⟩, c⟩; exact ⟨a, b, c⟩
+  · rintro ⟨a, b, c⟩; exact ⟨⟨a, b⟩, c⟩
+
+/-- **sub-directories**: it enumerates as common prefixes exactly the directories directly below
+    `pfx` that hold at least one key, however deep — none is left out and none is invented -/
+theorem C15_listing_dirs (keys : List Str) (pfx cp : Str) :
+    Entry.dir cp ∈ entries keys pfx true ↔
+      ∃ k, k ∈ keys ∧ pfx.isPrefixOf k = true ∧ commonPrefix pfx.length k = some cp := by
+  rw [entries_delim, group_mem_dir]
+  simp only [List.not_mem_nil, false_or, List.mem_filter]
+  constructor
+  · rintro ⟨k, ⟨a, b⟩, c⟩; exact ⟨k, a, b, c⟩
+  · rintro ⟨k, a, b, c⟩; exact ⟨k, ⟨a, b⟩, c⟩
+
+/-- **recursive listing** (no delimiter): exactly the stored keys below the prefix, in order -/
+theorem C15_listing_recursive (keys : List Str) (pfx : Str) :
+    entries keys pfx false = (keys.filter (fun k => pfx.isPrefixOf k)).map Entry.key := rfl
+
 end Rocfl.S3
